@@ -13,6 +13,7 @@ import (
 	"sync"
 
 	mocker "github.com/tencent/goom"
+	"github.com/tencent/goom/arg"
 	"github.com/tencent/goom/zzverif/sched"
 	t "verifh/targets/c05t"
 	"verifh/sx"
@@ -221,6 +222,244 @@ func seq(c *vk.Ctx) {
 	}
 	c.Res.Extra["call_sequence_length"] = L
 	c.Res.Extra["configs"] = len(cfgs)
+	extendPart(c, &idx)
+	matchesPart(c, &idx)
+}
+
+// ---------------------------------------------------------------------------------------------
+// extending a sequence after calls have been made
+
+// ExtCase is the replay artefact of the extend-after-calls part.
+type ExtCase struct {
+	Sub    string `json:"sub"` // "extend"
+	Stub   string `json:"stub"` // default | when
+	N      int    `json:"n"`      // initial sequence length
+	K      int    `json:"k"`      // calls made before the extension
+	E      int    `json:"e"`      // elements added
+	How    string `json:"how"`    // AndReturn (retained When) | Return (fresh lookup) | Returns (fresh lookup)
+	After  int    `json:"after"`  // calls made after the extension
+}
+
+// runExtend: a stub with n results serves k calls, is then extended by e results, and serves
+// `after` more calls. Two readings of "the k-th call receives the k-th result" exist once calls
+// beyond the end were made before the extension (cursor stuck at the end vs. counting every
+// call); a call is judged only where both give the same element.
+func runExtend(cs ExtCase) (fail string, judged, unjudged int) {
+	b := mocker.Create()
+	defer b.Reset()
+	base, arg := 100, 9
+	var wh *mocker.When
+	if cs.Stub == "default" {
+		wh = b.Func(t.F).Return(base)
+		for i := 1; i < cs.N; i++ {
+			wh = wh.AndReturn(base + i)
+		}
+	} else {
+		base, arg = 200, 1
+		wh = b.Func(t.F).Return(99).When(1).Return(base)
+		for i := 1; i < cs.N; i++ {
+			wh = wh.AndReturn(base + i)
+		}
+	}
+	list := make([]int, cs.N)
+	for i := range list {
+		list[i] = base + i
+	}
+	curA, calls := 0, 0 // reading A: the cursor advances only while elements remain; reading B: every call counts
+	check := func(phase string) string {
+		got := t.F(arg)
+		a := list[minInt(curA, len(list)-1)]
+		if curA < len(list) {
+			curA++
+		}
+		bv := list[minInt(calls, len(list)-1)]
+		calls++
+		if a != bv {
+			unjudged++
+			if got != a && got != bv {
+				return fmt.Sprintf("extend: %s call #%d returned %d, neither reading of the sequence %v allows it", phase, calls, got, list)
+			}
+			return ""
+		}
+		judged++
+		if got != a {
+			return fmt.Sprintf("extend: %s call #%d returned %d, expected %d (sequence %v)", phase, calls, got, a, list)
+		}
+		return ""
+	}
+	for i := 0; i < cs.K; i++ {
+		if f := check("before the extension,"); f != "" {
+			return f, judged, unjudged
+		}
+	}
+	ext := make([]interface{}, cs.E)
+	for i := range ext {
+		ext[i] = base + cs.N + i
+		list = append(list, base+cs.N+i)
+	}
+	msg, p := vk.Try(func() {
+		switch cs.How {
+		case "AndReturn":
+			for _, v := range ext {
+				wh = wh.AndReturn(v)
+			}
+		case "Return":
+			if cs.Stub == "default" {
+				for _, v := range ext {
+					b.Func(t.F).Return(v)
+				}
+			} else {
+				for _, v := range ext {
+					wh = wh.AndReturn(v) // a bare Return after a clause is not in the alphabet
+				}
+			}
+		case "Returns":
+			if cs.Stub == "default" {
+				b.Func(t.F).Returns(ext...)
+			} else {
+				wh = wh.When(1) // not used: see alphabet filter in extendPart
+			}
+		}
+	})
+	if p {
+		return "extend: the extension panicked: " + vk.Short(msg, 100), judged + 1, unjudged
+	}
+	for i := 0; i < cs.After; i++ {
+		if f := check("after the extension,"); f != "" {
+			return f, judged, unjudged
+		}
+	}
+	return "", judged, unjudged
+}
+
+func minInt(a, b int) int {
+	if a < b {
+		return a
+	}
+	return b
+}
+
+func extendPart(c *vk.Ctx, idx *int64) {
+	n0 := int64(0)
+	for _, stub := range []string{"default", "when"} {
+		for _, how := range []string{"AndReturn", "Return", "Returns"} {
+			if stub == "when" && how != "AndReturn" {
+				continue
+			}
+			for n := 1; n <= 3; n++ {
+				for k := 0; k <= n+2; k++ {
+					for e := 1; e <= 2; e++ {
+						if c.Full() || c.Expired() {
+							return
+						}
+						mine := c.Mine(*idx)
+						*idx++
+						if !mine {
+							continue
+						}
+						cs := ExtCase{"extend", stub, n, k, e, how, 4}
+						f, j, u := runExtend(cs)
+						c.Res.Evaluations++
+						c.Res.Traces++
+						c.Res.States++
+						c.Res.Transitions += int64(k + 4 + e + n)
+						c.Res.Unjudged += int64(u)
+						_ = j
+						c.Res.Nontrivial++
+						n0++
+						if f != "" {
+							c.Violate(fmt.Sprintf("extend stub=%s how=%s n=%d calls-before=%d added=%d class=%s", stub, how, n, k, e, cls2(f)), f, cs)
+						}
+					}
+				}
+			}
+		}
+	}
+	c.Res.Extra["n_extend_cases"] = n0
+}
+
+func cls2(f string) string {
+	if strings.Contains(f, "panicked") {
+		return "panic"
+	}
+	return "wrong-element"
+}
+
+// ---------------------------------------------------------------------------------------------
+// conditions given as pairs (When.Matches)
+
+// MatchesCase is the replay artefact of the Matches part.
+type MatchesCase struct {
+	Sub   string `json:"sub"` // "matches"
+	Pairs int    `json:"pairs"`
+	Calls []int  `json:"calls"` // index of the pair each call selects
+}
+
+// runMatches: conditions registered with Matches(pairs...) each carry a one-element sequence;
+// calls selecting pair i must always receive pair i's result, however often and in whatever
+// order (sequences attached to different conditions are independent; a one-element sequence
+// sticks at its element). Calls never fall through to the default here.
+func runMatches(cs MatchesCase) string {
+	b := mocker.Create()
+	defer b.Reset()
+	pairs := make([]arg.Pair, cs.Pairs)
+	for i := range pairs {
+		pairs[i] = arg.Pair{Args: 10 + i, Return: 500 + i}
+	}
+	msg, p := vk.Try(func() { b.Func(t.F).When(999).Return(7).Matches(pairs...) })
+	if p {
+		return "matches: configuration panicked: " + vk.Short(msg, 100)
+	}
+	for n, pi := range cs.Calls {
+		var got int
+		msg, p := vk.Try(func() { got = t.F(10 + pi) })
+		if p {
+			return fmt.Sprintf("matches: call %d (pair %d) panicked: %s", n, pi, vk.Short(msg, 100))
+		}
+		if got != 500+pi {
+			return fmt.Sprintf("matches: call %d selects pair %d and returned %d, expected %d (calls so far %v)", n, pi, got, 500+pi, cs.Calls[:n+1])
+		}
+	}
+	return ""
+}
+
+func matchesPart(c *vk.Ctx, idx *int64) {
+	n0 := int64(0)
+	for np := 2; np <= 3; np++ {
+		L := 4
+		total := 1
+		for i := 0; i < L; i++ {
+			total *= np
+		}
+		for s := 0; s < total; s++ {
+			if c.Full() || c.Expired() {
+				return
+			}
+			mine := c.Mine(*idx)
+			*idx++
+			if !mine {
+				continue
+			}
+			calls := make([]int, L)
+			x := s
+			for i := range calls {
+				calls[i] = x % np
+				x /= np
+			}
+			cs := MatchesCase{"matches", np, calls}
+			f := runMatches(cs)
+			c.Res.Evaluations++
+			c.Res.Traces++
+			c.Res.States++
+			c.Res.Transitions += int64(L + 2)
+			c.Res.Nontrivial++
+			n0++
+			if f != "" {
+				c.Violate(fmt.Sprintf("matches pairs=%d calls=%v class=%s", np, calls, cls2(f)), f, cs)
+			}
+		}
+	}
+	c.Res.Extra["n_matches_cases"] = n0
 }
 
 func argsOf(calls []int) []int {
@@ -504,6 +743,22 @@ func replay(c *vk.Ctx) {
 	}
 	c.LoadReplay(&probe)
 	switch probe.Sub {
+	case "extend":
+		var cs ExtCase
+		c.LoadReplay(&cs)
+		f, _, _ := runExtend(cs)
+		fmt.Printf("replay extend %+v\nresult: %s\n", cs, orOK(f))
+		if f != "" {
+			c.Violate("replay", f, cs)
+		}
+	case "matches":
+		var cs MatchesCase
+		c.LoadReplay(&cs)
+		f := runMatches(cs)
+		fmt.Printf("replay matches %+v\nresult: %s\n", cs, orOK(f))
+		if f != "" {
+			c.Violate("replay", f, cs)
+		}
 	case "seq":
 		var cs SeqCase
 		c.LoadReplay(&cs)
